@@ -147,10 +147,59 @@ def gadget_prefix(rng, kind):
     return toks
 
 
+def large_history(rng, kind):
+    """medium-size frameworks (14-36 arguments) built and modified through update calls: too large for the exponential
+    reference deciders, covered by the call-by-call correspondence with the proved models; attacks mostly go from
+    earlier to later arguments (few cycles) so that the enumerating searches stay short"""
+    n = rng.randint(14, 36)
+    labs = rng.sample(range(100, 400), n)
+    toks = ["A%d" % l for l in labs]
+    atts = set()
+    queries = KINDS[kind]
+    for i in range(1, n):
+        for _ in range(1 if rng.random() < 0.8 else 2):
+            j = rng.randrange(max(0, i - 5), i)
+            if (j, i) not in atts:
+                atts.add((j, i))
+                toks.append("+%d>%d" % (labs[j], labs[i]))
+    for _ in range(rng.randint(0, 3)):
+        a, b = rng.randrange(n), rng.randrange(n)
+        if (a, b) not in atts:
+            atts.add((a, b))
+            toks.append("+%d>%d" % (labs[a], labs[b]))
+    live = list(range(n))
+    for _ in range(rng.randint(6, 16)):
+        r = rng.random()
+        if r < 0.45:
+            toks.append("?%s%d:%d" % (rng.choice(queries), rng.choice([0, 1]), labs[rng.choice(live)]))
+        elif r < 0.60 and atts:
+            a, b = rng.choice(sorted(atts))
+            atts.discard((a, b))
+            toks.append("-%d>%d" % (labs[a], labs[b]))
+        elif r < 0.75:
+            a, b = rng.choice(live), rng.choice(live)
+            if (a, b) not in atts:
+                atts.add((a, b))
+                toks.append("+%d>%d" % (labs[a], labs[b]))
+        elif r < 0.85 and len(live) > 10:
+            a = rng.choice(live)
+            live.remove(a)
+            atts = set(p for p in atts if a not in p)
+            toks.append("R%d" % labs[a])
+        else:
+            l = rng.randrange(400, 500)
+            if l not in labs:
+                labs.append(l)
+                live.append(len(labs) - 1)
+                toks.append("A%d" % l)
+    toks.append("?%s1:%d" % (rng.choice(queries), labs[rng.choice(live)]))
+    return toks
+
+
 class DynProperty(Property):
     families = ["dyn"]
     bad_rate = 0.0
-    assumptions = ["CaDiCaL assumed sound and complete", "the framework 'as it stands' is a shadow AAFramework kept by the harness (only accepted updates applied); frameworks have at most 12 live arguments (random part at most 7, optionally next to a union of semantic gadgets of at most 5) so that every answer is judged by the proved deciders"]
+    assumptions = ["CaDiCaL assumed sound and complete", "the framework 'as it stands' is a shadow AAFramework kept by the harness (only accepted updates applied); frameworks have at most 12 live arguments (random part at most 7, optionally next to a union of semantic gadgets of at most 5) so that every answer is judged by the proved deciders; about one history in ten of the modelled solver kinds works on 14-36 arguments instead: those answers are not judged (exponential deciders) but compared, like every SAT-interface event, with the proved Lean model"]
 
     def cases(self, tier, rng):
         lines = []
@@ -161,6 +210,8 @@ class DynProperty(Property):
                 toks = gen_history(rng, kind, rng.randint(5, 40 if tier == "quick" else 90), self.bad_rate)
                 if rng.random() < 0.3:
                     toks = gadget_prefix(rng, kind) + toks
+                elif kind in MODELLED and not kind.startswith("dummy") and rng.random() < 0.12:
+                    toks = large_history(rng, kind)
                 f = " factor=%s" % rng.choice(FACTORS) if kind.endswith("_att") else ""
                 tr = " trace=1" if kind in MODELLED else ""
                 lines.append("dyn x kind=%s%s%s hist=%s" % (kind, f, tr, ";".join(toks)))
